@@ -61,7 +61,7 @@ where
     F: Future<Output = std::io::Result<T>> + 'static,
 {
     let mut fut: Pin<Box<F>> = Box::pin(fut);
-    let held = Held::default();
+    let held = talloc::untracked(Held::new_untracked);
     let h2 = held.clone();
     Op {
         poller: Box::new(move |cx| match fut.as_mut().poll(cx) {
@@ -87,6 +87,17 @@ fn fd_str(fd: AsyncFd, held: &Held) -> String {
     s
 }
 
+impl Held {
+    pub fn new_untracked() -> Held {
+        let h = Held::default();
+        // Pre-size the vectors here so that later pushes (made in whatever
+        // scope) never allocate tracked memory.
+        h.fds.borrow_mut().reserve(8);
+        h.bufs.borrow_mut().reserve(8);
+        h
+    }
+}
+
 /// The descriptor number (or slot) of an AsyncFd, through its Debug output.
 pub fn raw_of(fd: &AsyncFd) -> i32 {
     let d = format!("{fd:?}");
@@ -106,7 +117,7 @@ fn buf_str(buf: a10::io::ReadBuf, held: &Held) -> String {
 macro_rules! stream {
     ($it:expr, $render:expr) => {{
         let mut it = Box::pin($it);
-        let held = Held::default();
+        let held = talloc::untracked(Held::new_untracked);
         let h2 = held.clone();
         let render = $render;
         Op {
